@@ -137,11 +137,11 @@ class _ExecutorWrapper[**Args, Result]:
 
     def __get__(
         self,
-        instance: object,
+        instance: object | None,
         owner: type | None = None,
         /,
     ) -> Callable[Args, Coroutine[None, None, Result]]:
-        if owner is None:
+        if owner is None or instance is None:
             return self
 
         else:
